@@ -9,15 +9,15 @@ from __future__ import annotations
 
 import numpy as np
 
-from .. import gens
+from .. import forms, gens
 from ..common import Skip, brief
 
 ID = "C11"
 CASES = {"quick": 4000, "thorough": 50000}
 FLOOR = {"quick": 3500, "thorough": 45000}
 FLOOR_COUNTERS = {
-    "quick": {"fits_judged": 3500, "replication_pairs": 700, "rejections_judged": 3000, "zero_weight_fits": 300, "estimators_with_a_past": 5000},
-    "thorough": {"fits_judged": 45000, "replication_pairs": 9000, "rejections_judged": 40000, "zero_weight_fits": 4000, "estimators_with_a_past": 60000},
+    "quick": {"fits_judged": 3500, "replication_pairs": 700, "rejections_judged": 3000, "zero_weight_fits": 300, "estimators_with_a_past": 5000, "block_boundary_sizes": 80, "fits_through_fit_transform": 900, "configured_not_by_constructor": 1500, "non_default_containers": 1500},
+    "thorough": {"fits_judged": 45000, "replication_pairs": 9000, "rejections_judged": 40000, "zero_weight_fits": 4000, "estimators_with_a_past": 60000, "block_boundary_sizes": 1000, "fits_through_fit_transform": 12000, "configured_not_by_constructor": 20000, "non_default_containers": 20000},
 }
 RULE = (
     "case = X (n>=2, 1-10 columns, column scales 1e-3..1e3, offsets up to 1e3), the 8 with_mean/with_std/column_wise "
@@ -36,7 +36,13 @@ ASSUMPTIONS = [
 def gen(rng, tier, index):
     n = int(rng.integers(2, 40))
     m = int(rng.integers(1, 11))
+    edge = index % 40 == 3  # sizes on both sides of the powers of two an implementation might block by
+    if edge:
+        n = int(gens.pick(rng, (255, 256, 257, 1023, 1024, 1025, 2047, 2048, 2049, 4097)))
+        m = int(rng.integers(1, 4))
     X = rng.normal(size=(n, m)) * 10.0 ** rng.uniform(-3, 3, size=m) + rng.normal(size=m) * 10.0 ** rng.uniform(-1, 3, size=m) * (rng.random(m) < 0.7)
+    if edge and rng.random() < 0.7:
+        X[-1] = X[-1] + 30.0 * X.std(axis=0) * rng.choice([-1.0, 1.0], size=m)  # the last row matters
     if rng.random() < 0.25:  # offsets far above the spread (exactly representable shifts)
         X = X + np.round(rng.normal(size=m) * 10.0 ** rng.uniform(4, 8))
     flags = index % 8
@@ -54,6 +60,10 @@ def gen(rng, tier, index):
         "Z": rng.normal(size=(int(rng.integers(1, 8)), m)) * np.abs(X).max(axis=0),
         "shift": rng.normal(size=m) * np.abs(X).max(axis=0),
         "c": float(gens.pick(rng, (-1.0, 1.0)) * 10.0 ** rng.uniform(-2, 2)),
+        "edge": bool(edge),
+        "via": gens.pick(rng, ("fit", "fit", "fit_transform")),
+        "how": gens.pick(rng, forms.CONFIGURE),
+        "xform": gens.pick(rng, forms.PRESENT),
         "past": bool(rng.random() < 0.4),  # the scaler object has been fitted before (other data, weights, flags)
         "pseed": int(rng.integers(1 << 30)),
     }
@@ -87,7 +97,7 @@ def run(case, j):
         """A fresh scaler, or one with a past: fitted on other data with the same number of rows (weighted, other
         flags and tolerances), then re-configured with set_params."""
         if not case.get("past"):
-            return SFS(**kw, **more)
+            return forms.configure(SFS, dict(kw, **more), case.get("how", "ctor"))
         pr = np.random.default_rng(case["pseed"] + len(label))
         e = SFS(with_mean=bool(pr.random() < 0.7), with_std=bool(pr.random() < 0.7), column_wise=bool(pr.random() < 0.5), atol=0.0, rtol=0.0)
         n0 = n if pr.random() < 0.8 else int(pr.integers(2, 30))
@@ -101,11 +111,30 @@ def run(case, j):
         return e
 
     est = scaler()
-    j.lib("fit", est.fit, X, sample_weight=None if w is None else w.copy())
+    Xin = forms.present(X, case.get("xform", "C"))
+    via = case.get("via", "fit")
+
+    def enter(e, A, **kws):
+        """fit through the entry point of the case: fit(...) or fit_transform(...) (what a Pipeline step gets)"""
+        return e.fit(A, **kws) if via == "fit" else (e.fit_transform(A, **kws), e)[1]
+
+    if case.get("edge"):
+        j.note("block_boundary_sizes")
+    if case.get("how", "ctor") != "ctor":
+        j.note("configured_not_by_constructor")
+    if case.get("xform", "C") != "C":
+        j.note("non_default_containers")
+    if via == "fit_transform":
+        Tft = np.asarray(j.lib("fit_transform", est.fit_transform, Xin, sample_weight=None if w is None else w.copy()))
+        j.note("fits_through_fit_transform")
+    else:
+        j.lib("fit", est.fit, Xin, sample_weight=None if w is None else w.copy())
     j.note("fits_judged")
     if w is not None and np.any(np.asarray(w) == 0):
         j.note("zero_weight_fits")
     T = np.asarray(est.transform(X))
+    if via == "fit_transform":
+        j.close("fit_transform(X) == transform(X) of the scaler it fitted", Tft, T, 1e-12 * (np.abs(T) + 1))
     sd0 = np.sqrt(var0)
     amp = (np.abs(mu0) + sd0) / sd0  # cancellation amplification per column
     mu, var = _wmoments(T, w)
@@ -171,12 +200,12 @@ def run(case, j):
             if not cw and mode == "rtol":
                 pass
             try:
-                scaler('hi', **hi).fit(X, sample_weight=None if w is None else w.copy())
+                enter(scaler('hi', **hi), X, sample_weight=None if w is None else w.copy())
                 j.ok(f"variance below the {mode} tolerance is rejected", False, {"var": v[i], "tol": hi})
             except ValueError:
                 j.ok(f"variance below the {mode} tolerance is rejected", True)
             try:
-                scaler('lo', **lo).fit(X, sample_weight=None if w is None else w.copy())
+                enter(scaler('lo', **lo), X, sample_weight=None if w is None else w.copy())
                 j.ok(f"variance 10x above the {mode} tolerance is accepted", True)
             except ValueError as e:
                 # in column-wise mode another column may legitimately fall below its own rtol threshold
